@@ -25,7 +25,7 @@ def Matches (x : Served) (g : Grant) : Prop :=
 
 theorem admits_iff (now : Nat) (cmd : List UInt8) (shell : Bool) (g : Grant) :
     admits now cmd shell g = true ↔
-      g.start * ns ≤ now ∧ now < g.exp * ns ∧
+      g.start * ns + g.startNs ≤ now ∧ now < g.exp * ns ∧
         ((shell = false ∧ g.gtype = gCommand ∧ g.cmd = cmd) ∨ (shell = true ∧ g.gtype = gShell)) := by
   unfold admits
   cases shell <;> simp <;> constructor <;> intro h <;> simp_all
@@ -38,7 +38,7 @@ request. -/
 theorem C07_exec_matches_grant (ops : List Op) (x : Served)
     (hx : x ∈ (runW World.empty ops).served) (hu : x.usingGrant = true) (hh : x.handler = .codex) :
     ∃ g, x.grant = some g ∧ g ∈ (runW World.empty ops).issued ∧ g.user = x.user ∧ g.key = x.key ∧
-      g.start * ns ≤ x.now ∧ x.now < g.exp * ns ∧ Matches x g := by
+      g.start * ns + g.startNs ≤ x.now ∧ x.now < g.exp * ns ∧ Matches x g := by
   have hinv := run_inv World.empty ops inv_empty
   obtain ⟨g, hg⟩ := hinv.codexGranted x hx hu hh
   obtain ⟨_, _, h3, h4, h5⟩ := hinv.servedOk x hx g hg
@@ -149,7 +149,7 @@ theorem C07_dispatch_ignores_grants (s : Session) :
       dispatch s tAuthGrant true = .agc ∧ dispatch s tWinSize true = .winSize := by
   simp [dispatch, tPFControl, tPF, tAuthGrant, tWinSize, tExec]
 
-def witnessGrant : Grant := ⟨gCommand, [108, 115], 1000, 2000, [117], 1⟩
+def witnessGrant : Grant := ⟨gCommand, [108, 115], 1000, 2000, [117], 1, 0⟩
 
 /-- a session admitted through one *command* grant opens a port-forwarding control tube -/
 def witness : List Op := [.grant witnessGrant, .login [117] 1, .tube 0 tPFControl true]
@@ -164,13 +164,13 @@ theorem C07_full_false : ¬ C07_full := by
 `checkIntent` has no objection, the grant is stored, and after a new login the shell runs -/
 def witness2 : List Op :=
   [.grant witnessGrant, .login [117] 1,
-   .issue 0 (1500 * ns) ⟨gShell, [], 1000, 2000, [117], 1⟩ true,
+   .issue 0 (1500 * ns) ⟨gShell, [], 1000, 2000, [117], 1, 0⟩ true,
    .login [117] 1, .exec 1 (1600 * ns) [] true]
 
 theorem C07_escalation_witness :
     (runW World.empty witness2).served =
       [⟨[117], 1, true, .agc, 1500 * ns, [], false, none⟩,
-       ⟨[117], 1, true, .codex, 1600 * ns, [], true, some ⟨gShell, [], 1000, 2000, [117], 1⟩⟩] := by
+       ⟨[117], 1, true, .codex, 1600 * ns, [], true, some ⟨gShell, [], 1000, 2000, [117], 1, 0⟩⟩] := by
   decide
 
 /-! ### non-vacuity -/
